@@ -25,6 +25,9 @@ CLAIMED = {
     "C06": ("exploration",
             "Same recorder world with generated credential tables (exact, *:port, host:*, *:*, overlapping), upstream proxies with/without userinfo or PAC-selected, basic auth on the proxy; every secret is a unique token. For every arrival (after TLS termination, also inside tunnels and SOCKS5 auth) the oracle demands exactly the expected Proxy-Authorization / Authorization under the documented precedence, and raw scans of all received bytes show each secret only at the hop it belongs to.",
             "DESIGN.md 4 C06", "deterministic simulation + wire-level taint tracking of unique secrets at every node"),
+    "C07": ("exploration",
+            "Deterministic simulation of the real proxy with MITM: certificate cache capacity 1..1024, cache TTL and leaf validity from seconds to a day, optional mitm-domains lists; waves of 1-12 concurrent CONNECTs (DNS names in any case, IPv4/IPv6 literals, odd ports; SNI equal/absent/different) with the fake clock jumping past TTL and validity between waves; origins presenting valid, expired, wrong-name or untrusted certificates. The client verifies the presented chain with crypto/x509 against the MITM CA using the simulated current time and the name it asked for - independent of the code under test; origin request counters prove that no request reaches an origin whose certificate does not verify; excluded hosts must show the origin's own certificate.",
+            "DESIGN.md 4 C07", "deterministic simulation (concurrent handshakes, clock jumps) + independent x509 verification at the client + origin request counters"),
     "C08": ("exploration",
             "Deterministic simulation of proxyproto.Listener over the in-memory network (and, in a fifth of the runs, of the whole proxy with the PROXY protocol enabled): generated v1/v2 headers of every command x family, TLV tails, malformed/truncated/oversized headers, every segmentation down to single bytes, peers stalling before any header byte for less or more than the header timeout (fake clock) or forever, and several application goroutines calling Read/RemoteAddr/LocalAddr/Header/Write concurrently before the header arrives. Oracle: a reference parser written from the PROXY protocol specification decides accept(src,dst) / accept-local / reject / either; addresses never nil, payload byte-exact, failure no later than the timeout; a dead worker = crash.",
             "DESIGN.md 4 C08", "deterministic simulation (segmentation, stalls on the fake clock, concurrent callers) + independent PROXY v1/v2 reference parser"),
